@@ -254,6 +254,21 @@ impl<'tcx> Cx<'tcx> {
             if let Some(bytes) = self.const_bytes(env, c) {
                 o.set("bytes", J::Arr(bytes.iter().map(|b| J::Int(*b as i128)).collect()));
             }
+            if let ty::Array(e, _) = t.kind() {
+                if *e == self.tcx.types.u8 {
+                    let val = match c.const_ {
+                        Const::Val(v, _) => Some(v),
+                        Const::Unevaluated(..) | Const::Ty(..) => c.const_.eval(self.tcx, env, c.span).ok(),
+                    };
+                    if let Some(v) = val {
+                        if let Some(J::Arr(items)) = self.const_value_json(v, t, 0) {
+                            if items.len() <= 4096 && items.iter().all(|x| matches!(x, J::Int(_))) {
+                                o.set("bytes", J::Arr(items));
+                            }
+                        }
+                    }
+                }
+            }
             if let Some((v, ity)) = self.const_deref_int(env, c) {
                 o.set("deref_v", J::Str(v));
                 o.set("deref_ty", J::Str(ity));
